@@ -44,6 +44,16 @@ def convertCallToDict (names : List String) (args : List Expr) (kwn : List Strin
       .ok (.dict (((names.take args.length) ++ extra.map (·.1)).map (fun n => .const (.str n)))
                  (args ++ extra.map (·.2)))
 
+/-- the constructor parameters as the class table lists them: an entry "*" marks where the keyword-only parameters begin
+    (as in Python's own rendering of a signature, `(x, *, y=0)`) -/
+def ctorNames (names : List String) : List String := names.filter (· != "*")
+def ctorPositional (names : List String) : Nat := (names.takeWhile (· != "*")).length
+
+/-- `convert_call_to_dict` behind the check of the positional arguments against the parameters that can be bound by position -/
+def convertCall (names : List String) (args : List Expr) (kwn : List String) (kwv : List Expr) : Except Err Expr :=
+  if ctorPositional names < args.length then .error (.valueError "Too many positional arguments for dataclass")
+  else convertCallToDict (ctorNames names) args kwn kwv
+
 /-- `resolve_generator` for one `for` clause (children already visited) -/
 def lowerComp (elt target iter : Expr) (ifs : List Expr) (isAsync : Bool) : Except Err Expr :=
   match target with
@@ -66,7 +76,7 @@ def resolveSugar (cs : ClassTable) : Expr → Except Err Expr
     match f' with
     | .const c =>
       match lookupClass cs c with
-      | some names => convertCallToDict names args' kwn kwv'
+      | some names => convertCall names args' kwn kwv'
       | Option.none => pure (.call f' args' kwn kwv')
     | _ => pure (.call f' args' kwn kwv')
   | .lam ps b => do pure (.lam ps (← resolveSugar cs b))
